@@ -555,7 +555,43 @@ func init() { rt.Register("C09g", jobC09g) }
 // unreduced representations: CofactorMultiply == [8]P, IsNeutralVartime == "is the identity" for
 // every representation (X:Y:Z:T) of torsion, mixed-order and prime-order points.
 func jobC09g(c *rt.Ctx) {
-	c.Require("neutral/true", "neutral/false", "cofactor")
+	c.Require("neutral/true", "neutral/false", "cofactor", "neutral/sparse")
+	// the identity test must look at every byte of X and of Y - Z: coordinates that differ from
+	// (0 : z : z) in a single byte only
+	for pos := 0; pos < 32; pos++ {
+		if !c.Take() {
+			continue
+		}
+		c.Class("neutral/sparse")
+		c.Distinct(fmt.Sprintf("sparse %d", pos), true)
+		v := int64(1)
+		if pos == 31 {
+			v = 0x40
+		}
+		d := new(big.Int).Lsh(big.NewInt(v), uint(8*pos))
+		for _, z := range []*big.Int{big.NewInt(1), a0} {
+			for which := 0; which < 3; which++ {
+				var g Ge25519
+				fset(&g.z, z)
+				switch which {
+				case 0: // X sparse, Y = Z
+					fset(&g.x, d)
+					fset(&g.y, z)
+				case 1: // X = 0, Y = Z + sparse
+					fset(&g.x, big.NewInt(0))
+					fset(&g.y, new(big.Int).Add(z, d))
+				default: // X = 0, Y = Z: the identity (control)
+					fset(&g.x, big.NewInt(0))
+					fset(&g.y, z)
+				}
+				got := IsNeutralVartime(&g)
+				c.Step(1)
+				if got != (which == 2) {
+					c.Violation("C09 IsNeutralVartime sparse", fmt.Sprintf("IsNeutralVartime = %v for coordinates differing from the identity's in byte %d only (case %d)", got, pos, which), map[string]interface{}{"byte": pos, "case": which})
+				}
+			}
+		}
+	}
 	zs := []*big.Int{big.NewInt(1), big.NewInt(2), badd(ref.P, -1), badd(pow2(255), -20), a0, big.NewInt(19), badd(ref.P, -19)}
 	var pts []ref.Point
 	for i := 0; i < 8; i++ {
